@@ -14,7 +14,7 @@
    RefWrite / RefRead below are these conventions; ReadBack(S) = RefRead(RefWrite(S)).
    S1 shows ReadBack(S) = S on Dom_Representable and computes, for every other structure,
    *why* the format cannot return it (Reasons) and what it returns instead. *)
-EXTENDS Integers, Sequences, FiniteSets, SequencesExt, TLC
+EXTENDS Integers, Sequences, FiniteSets, SequencesExt, FiniteSetsExt, TLC
 
 (* ---------------------------------------------------------------- constants: the CCD *)
 PepNames == {"ALA", "GLY", "SER"}
@@ -95,24 +95,46 @@ WriteRefused(S) ==
   \/ \E b \in Intra(S.A, S.B) : ~CompWritable(b[3])
 
 Key(a) == <<Ch(a), Ri(a), Ic(a), Rn(a), An(a)>>
+\* bonds in the order of the bond list (the drivers construct it sorted by position)
+BondOrder(b, c) == b[1] < c[1] \/ (b[1] = c[1] /\ b[2] < c[2])
+\* chem_comp_bond is a *sequence*: one row per distinct (comp_id, atom_id_1, atom_id_2), in the
+\* order of the first bond that has it; that first bond also decides the row's type
+CompRows(S) ==
+  LET rowsInOrder == [k \in 1..Cardinality(Intra(S.A, S.B)) |->
+                        LET b == SetToSortSeq(Intra(S.A, S.B), BondOrder)[k] IN
+                        <<Rn(AtomOf(S.A, b[1])), An(AtomOf(S.A, b[1])), An(AtomOf(S.A, b[2])), b[3]>>]
+  IN FoldLeft(LAMBDA acc, row :
+                IF \E k \in DOMAIN acc : acc[k][1] = row[1] /\ acc[k][2] = row[2] /\ acc[k][3] = row[3]
+                  THEN acc ELSE Append(acc, row),
+              <<>>, rowsInOrder)
+
 RefWrite(S) ==
   [conn |-> {<<Key(AtomOf(S.A, b[1])), Key(AtomOf(S.A, b[2])), b[3]>> :
                b \in {c \in Inter(S.A, S.B) : ~WriterOmits(S.A, c)}},
-   comp |-> {<<Rn(AtomOf(S.A, b[1])), An(AtomOf(S.A, b[1])), An(AtomOf(S.A, b[2])), b[3]>> :
-               b \in Intra(S.A, S.B)}]
+   comp |-> CompRows(S)]
 
 Lo(i, j) == IF i < j THEN i ELSE j
 Hi(i, j) == IF i < j THEN j ELSE i
 PosOfKey(A, k) == {i \in 1..Len(A) : Key(A[i]) = k}
 
+\* the template rows a residue name gets: from the file when it has a chem_comp_bond
+\* category (then *only* from the file), else from the dictionary (any fixed order)
+TemplateRows(F, rn) ==
+  IF Len(F.comp) > 0
+    THEN SelectSeq(F.comp, LAMBDA row : row[1] = rn)
+    ELSE SetToSeq({<<rn, r[1], r[2], r[3]>> : r \in CCDTemplate(rn)})
+
 RefRead(A, F) ==
-  LET tmpl(rn) == IF F.comp # {} THEN {<<r[2], r[3], CompRead(r[4])>> : r \in {x \in F.comp : x[1] = rn}}
-                                  ELSE CCDTemplate(rn)
+  LET \* the first template row naming the two atoms (in either orientation) decides
+      typeOf(rows, i, j) ==
+        LET ks == {k \in DOMAIN rows : (rows[k][2] = An(A[i]) /\ rows[k][3] = An(A[j]))
+                                       \/ (rows[k][2] = An(A[j]) /\ rows[k][3] = An(A[i]))}
+        IN IF ks = {} THEN -1 ELSE CompRead(rows[CHOOSE k \in ks : \A q \in ks : k <= q][4])
       fromTemplates ==
-        UNION {UNION {{<<Lo(i, j) - 1, Hi(i, j) - 1, row[3]>> :
-                         <<i, j>> \in {p \in ResAtoms(A, r) \X ResAtoms(A, r) :
-                                        An(A[p[1]]) = row[1] /\ An(A[p[2]]) = row[2]}} :
-                       row \in tmpl(ResName(A, r))} : r \in 1..NRes(A)}
+        UNION {LET rows == TemplateRows(F, ResName(A, r)) IN
+               {<<p[1] - 1, p[2] - 1, typeOf(rows, p[1], p[2])>> :
+                  p \in {q \in ResAtoms(A, r) \X ResAtoms(A, r) : q[1] < q[2] /\ typeOf(rows, q[1], q[2]) # -1}}
+               : r \in 1..NRes(A)}
       implied == {<<p[1], p[2], 1>> : p \in ImpliedPairs(A)}
       conn == UNION {{<<Lo(i, j) - 1, Hi(i, j) - 1, ConnRead(row[3])>> :
                         <<i, j>> \in PosOfKey(A, row[1]) \X PosOfKey(A, row[2])} : row \in F.conn}
